@@ -281,7 +281,7 @@ def _on_side(an, bb, is_off):
 _U = 'src/index/updater.rs'
 MUTANTS = [
   {'name': 'transactions indexed in block order (coinbase first, before the fees exist)', 'file': _U, 'old': '      .enumerate()\n      .skip(1)\n      .chain(block.txdata.iter().enumerate().take(1))\n', 'new': '      .enumerate()\n', 'expect': ('R1.2', 'index_utxo_entries', '')},
-  {'name': 'coinbase leftovers fed back to the coinbase inputs (lost sats vanish)', 'file': _U, 'old': '          leftover_sat_ranges = &mut lost_sat_ranges;', 'new': '          leftover_sat_ranges = &mut coinbase_inputs;', 'expect': ('R1.3', 'index_utxo_entries', '')},
+  {'name': 'fees of ordinary transactions routed to the lost sats instead of the coinbase', 'file': _U, 'old': '          leftover_sat_ranges = &mut coinbase_inputs;', 'new': '          leftover_sat_ranges = &mut lost_sat_ranges;', 'expect': ('R1.3', 'index_utxo_entries', '')},
   {'name': 'subsidy range never offered to the coinbase', 'file': _U, 'old': '        coinbase_inputs.extend(SatRange::store((start.n(), (start + h.subsidy()).n())));\n', 'new': '        let _ = start;\n', 'expect': ('R1.1', 'index_utxo_entries', '')},
   {'name': 'duplicate txid keeps the old output', 'file': _U, 'old': '        utxo_cache.insert(OutPoint { txid: *txid, vout }, output_utxo_entry);', 'new': '        utxo_cache.entry(OutPoint { txid: *txid, vout }).or_insert(output_utxo_entry);', 'expect': ('R1.4', 'index_utxo_entries', '')},
   {'name': 'lost-sat rows located after their range', 'file': _U, 'old': '              offset: lost_sats,\n', 'new': '              offset: lost_sats + (end - start),\n', 'expect': ('R1.5', 'index_utxo_entries', 'row offset')},
